@@ -465,7 +465,7 @@ C12_LOOPS = {"cellToLocalIjk.0": 7, "cellToLocalIjk.1": 7, "cellToLocalIjk.2": 7
 @prop("C12",
       functions=["every exported function listed in the job names; internal NEVER/ALWAYS/assert sites become proof obligations (build without NDEBUG)"],
       bounds={"quick": "arbitrary 64-bit words / ints / int64 / doubles. Single-word integer APIs: all 2^64 words. APIs walking the digits (disks k<=1, pairs, local IJ): words whose resolution field is 0 (every other bit arbitrary, incl. invalid digits, modes, base cells 122-127). compactCells: 3 arbitrary words; uncompactCells: 2 words, <= 14 outputs; cellToChildren: one level",
-              "thorough": "digit-walking APIs at resolution fields 0-3; vertex / face APIs at 0-1 (class X)"},
+              "thorough": "digit-walking APIs at resolution fields 0-3; cellToVertex at field 0 (class L)"},
       outside="k >= 2, larger sets, deeper children; every API that reaches trigonometry or the FP cell-boundary code (latLngToCell beyond argument validation, cellToLatLng, cellToBoundary, vertexToLatLng, areas, edge lengths, polygon functions, cellsToLinkedMultiPolygon): their integer prefixes are covered by C02/C03/C19 jobs, the FP kernels are not decided",
       assumptions=["malloc does not fail in these jobs (allocation failure is C17)", "S-TRIG stubs for greatCircleDistance*"],
       stubs=["sin, cos, asin, ... -> S-TRIG (GCDIST job only)"])
@@ -501,6 +501,8 @@ def c12(tier):
         js.append(ub("localIjToCell_r%d" % r, ["-DIJ2CELL", "-DRES=%d" % r], unwind=r + 2, est=150 + 60 * r, mem="M", tier=t, timeout=2400, bound="origin word with resolution field %d, all int32 i,j, all modes" % r))
     for r in (0,):
         for fn, nm in enumerate(("cellToVertex", "cellToVertexes", "isValidVertex", "getIcosahedronFaces")):
+            if fn != 0:
+                continue   # calibrated: cellToVertexes / isValidVertex no verdict in 1500 s, getIcosahedronFaces 18 GB; only cellToVertex fits (847 s, 14 GB)
             js.append(ub("%s_r%d" % (nm, r), ["-DVERTEXAPI", "-DFN=%d" % fn, "-DRES=%d" % r, "-DUPB=(1<<10)"], unwind=max(r + 2, 8), us=dict(C12_LOOPS, **{"getIcosahedronFaces.0": 7, "getIcosahedronFaces.1": 7, "getIcosahedronFaces.2": 7}), unit_defs=UP7_DEFS, est=1, mem="L", tier="thorough", timeout=1500, core=False,
                          bound="arbitrary word with resolution field %d (L-UP7 model for the aperture-7 parent)" % r))
     js += with_witness(ub("gridDisk_r0_k1", ["-DDISK", "-DFN=0", "-DRES=0", "-DKK=1"], unwind=4, est=100, mem="M"))[1:]
